@@ -7,6 +7,16 @@ from harness.c01 import signature
 
 
 def impl(case):
+    if case.get("op") == "queue":
+        from paulie import get_pauli_string
+        from paulie.classifier.morph_factory import MorphFactory
+        out = []
+        for g in case["items"]:
+            try:
+                out.append(["ok", [str(x) for x in MorphFactory()._get_queue(list(get_pauli_string(g)))]])
+            except Exception as e:  # noqa
+                out.append(["exc", type(e).__name__])
+        return {"res": out}
     from harness import cls
     out, c, _ = cls.classify(case["gens"], routes=case.get("routes"), trace=True)
     # repetition inside one process: same object, fresh classify(), fresh object
@@ -49,6 +59,67 @@ def norm(alg):
         return ("bad", str(e))
 
 
+def connected_components(g):
+    g = sorted(set(g))
+    seen, comps = set(), []
+    for s0 in g:
+        if s0 in seen:
+            continue
+        comp, todo = [], [s0]
+        seen.add(s0)
+        while todo:
+            x = todo.pop()
+            comp.append(x)
+            for y in g:
+                if y not in seen and G.anti(x, y):
+                    seen.add(y); todo.append(y)
+        comps.append(comp)
+    return comps
+
+
+def validate_queue_translation(ck, base, count):
+    """the generated Gallina of MorphFactory._get_queue (.work/gen_C03_queue/QueueGen.v, written by check_translation in this run), evaluated by
+    vm_compute on connected components (distinct strings, shuffled), must return the order the implementation's _get_queue returns"""
+    import os, re, subprocess
+    from harness.common import WORK, VERIF
+    from harness.comp import coq_pstr
+    gen = os.path.join(WORK, "gen_%s_queue" % ck.pid)
+    if not os.path.exists(os.path.join(gen, "QueueGen.vo")):
+        return None
+    items = []
+    for kind, n, g in base:
+        for comp in connected_components(g):
+            if 2 <= len(comp) <= 14 and len(items) < count:
+                comp = list(comp); ck.rng.shuffle(comp)
+                items.append(comp)
+    res = [r for rr in ck.impl("c03", [{"op": "queue", "items": items[i:i + 50]} for i in range(0, len(items), 50)], per_case_s=120) for r in rr["res"]]
+    lines, kept = [], []
+    for g, r in zip(items, res):
+        if r[0] != "ok":
+            continue
+        lines.append("Definition c%d : bool := same (py_Q__get_queue %d [%s]) [%s]." % (len(kept), len(g) + 4, ";".join(coq_pstr(x) for x in g), ";".join(coq_pstr(x) for x in r[1])))
+        kept.append((g, r[1]))
+    src = ["From PauLieRefine Require Import PySem.", "From PauLie Require Import Pauli Collection.", "From PauLieGen Require Import QueueGen.", "Open Scope Z_scope.",
+           "Fixpoint lps_eqb (a b : list pstr) : bool := match a, b with [], [] => true | x :: a', y :: b' => pstr_eqb x y && lps_eqb a' b' | _, _ => false end.",
+           "Definition same (r : fres (list pstr)) (e : list pstr) : bool := match r with FRet a => lps_eqb a e | _ => false end."]
+    src += lines
+    src.append("Definition all_ := [%s]." % "; ".join("c%d" % i for i in range(len(kept))))
+    src.append("Eval vm_compute in all_.")
+    path = os.path.join(gen, "RunCases.v")
+    open(path, "w").write("\n".join(src) + "\n")
+    q = "-Q Model PauLie -Q Theory PauLie -Q Refine PauLieRefine -Q %s PauLieGen -w -notation-overridden,-deprecated" % gen
+    r = subprocess.run(["bash", "-c", "ulimit -s unlimited; cd %s/coq && timeout 900 coqc %s %s 2>&1" % (VERIF, q, path)], capture_output=True, text=True)
+    m = re.search(r"=\s*\[(.*?)\]\s*:\s*list bool", r.stdout, re.S)
+    if r.returncode != 0 or not m:
+        return {"cases": len(kept), "error": r.stdout[-600:]}
+    vals = [v.strip() for v in m.group(1).replace("\n", " ").split(";")] if m.group(1).strip() else []
+    # the theorem's conclusion, observed on the implementation's own queues: a permutation in which every later member anticommutes with an earlier one
+    disorder = [g for g, qd in kept if sorted(qd) != sorted(g) or any(not any(G.anti(qd[i], qd[j]) for j in range(i)) for i in range(1, len(qd)))]
+    return {"cases": len(kept), "agree": sum(1 for v in vals if v == "true"), "disagree": [kept[i][0] for i, v in enumerate(vals) if v != "true"],
+            "implementation_raised": sum(1 for r in res if r[0] != "ok"), "queue_not_a_connected_order": disorder,
+            "sizes": {str(k): sum(1 for g, _ in kept if len(g) == k) for k in sorted({len(g) for g, _ in kept})}}
+
+
 def main():
     ck = Check("C03")
     if ck.replay:
@@ -65,6 +136,18 @@ def main():
     base.append(("star", 5, ["XIIII", "ZIIII", "ZZIII", "ZIZII", "ZIIZI", "ZIIIZ", "ZZZZZ"]))
     # recorded witness of the known finding as presentation dependence (8*sp(4) or 2*sp(8) depending on the qubit order)
     base.append(("witness", 5, ["ZZIZY", "XIXIY", "ZZXYI", "YXIZZ", "XYXXY", "YIYZX", "ZXIYY", "XYXXX", "XIZII", "ZYXII"]))
+    # the work queue of MorphFactory (_get_queue and its helpers), regenerated as Gallina and re-proved (Refine/QueueRefine.v): for a connected
+    # component it terminates with a permutation in connected order; the translator is validated by execution against the implementation
+    ck.check_translation("queue")
+    tv = validate_queue_translation(ck, base, 150 if ck.quick else 1500)
+    if tv is not None:
+        ck.cov.setdefault("translated_model", {}).setdefault("queue", {})["validated_by_execution"] = {k: v for k, v in tv.items() if k not in ("disagree", "queue_not_a_connected_order")}
+        if tv.get("error"):
+            ck.obligation_broken("the generated translation of MorphFactory._get_queue could not be evaluated", tv["error"])
+        for g in tv.get("disagree", [])[:5]:
+            ck.correspondence_broken("_get_queue(%s): the Gallina translation does not return the order the implementation returns" % g, {"gens": g, "transformation": "queue", "transformed": g})
+        for g in tv.get("queue_not_a_connected_order", [])[:5]:
+            ck.correspondence_broken("_get_queue(%s): the implementation's queue is not a permutation of the component in connected order (what Refine/QueueRefine.v proves of the source)" % g, {"gens": g, "transformation": "queue", "transformed": g})
     jobs = []   # (base index, transformation name, n, gens)
     for i, (kind, n, g) in enumerate(base):
         jobs.append((i, "identity", n, g))
